@@ -93,7 +93,8 @@ FromCP(u) == Flatten([i \in 1..Len(u) |-> IF u[i] >= 65536
                                           THEN <<55296 + ((u[i] - 65536) \div 1024), 56320 + ((u[i] - 65536) % 1024)>>
                                           ELSE <<u[i]>>])
 IsObjArg(v) == v.k \in {"arr", "obj"}
-AsIsArg(m, a, i) == IF IsObjArg(a[i]) THEN (IF i \in IndexPos(m) THEN VNaN ELSE VStr(U("[object Object]")))
+\* (an array in a text position is joined, as ECMAScript says: only its use as a NUMBER skips ToPrimitive)
+AsIsArg(m, a, i) == IF IsObjArg(a[i]) THEN (IF i \in IndexPos(m) THEN VNaN ELSE IF a[i].k = "arr" THEN VStr(<<>>) ELSE VStr(U("[object Object]")))
                     ELSE IF a[i].k = "str" THEN VStr(ToCP(a[i].u)) ELSE a[i]
 AsIsRes(e) == IF e.o # "value" THEN e
               ELSE CASE e.v.k = "str" -> RVal(VStr(FromCP(e.v.u)))
